@@ -15,6 +15,7 @@ import (
 	"strconv"
 	"strings"
 	"sync"
+	"sync/atomic"
 	"time"
 
 	"github.com/fluffle/goirc/client"
@@ -223,6 +224,7 @@ func runSession(t *tlog, o sessionOpts, rng *rand.Rand) (stats map[string]int, e
 		s.C.EnableStateTracking()
 	}
 	forever := make(chan struct{})
+	var nblocked int32
 	witness := func(k int) bool {
 		if k < 1 || k >= len(ls) || ls[k].witness == nil {
 			return k >= 1 && k < len(ls) // lines without a witness: trivially reflected
@@ -290,7 +292,7 @@ func runSession(t *tlog, o sessionOpts, rng *rand.Rand) (stats map[string]int, e
 				time.Sleep(time.Duration(50+rnd(400)) * time.Microsecond)
 			}
 			if out == "block" {
-				stats["blocked"]++
+				atomic.AddInt32(&nblocked, 1)
 				<-forever
 			}
 			t.add(event{Ev: "exit", Kind: kind, H: h, K: k, Panic: out == "panic", Wnext: kind != "bg" && !gp && next(k)})
@@ -348,17 +350,26 @@ func runSession(t *tlog, o sessionOpts, rng *rand.Rand) (stats map[string]int, e
 		s.Srv.EOF()
 		select {
 		case <-discSeen:
-		case <-time.After(20 * time.Second):
-			return stats, fmt.Errorf("no DISCONNECTED after EOF")
+		case <-time.After(10 * time.Second):
+			if atomic.LoadInt32(&nblocked) == 0 {
+				return stats, fmt.Errorf("no DISCONNECTED after EOF")
+			}
+			// a background handler is blocked for ever and the foreground never got DISCONNECTED
+			t.add(event{Ev: "nodisc"})
+			stats["nodisc"]++
 		}
 	case "close":
 		s.Srv.SendStream(stream, cuts)
 		time.Sleep(time.Duration(rng.Intn(3000)) * time.Microsecond)
-		s.C.Close()
+		go s.C.Close() // a Close that never returns must not take the driver with it
 		select {
 		case <-discSeen:
-		case <-time.After(20 * time.Second):
-			return stats, fmt.Errorf("no DISCONNECTED after Close")
+		case <-time.After(10 * time.Second):
+			if atomic.LoadInt32(&nblocked) == 0 {
+				return stats, fmt.Errorf("no DISCONNECTED after Close")
+			}
+			t.add(event{Ev: "nodisc"})
+			stats["nodisc"]++
 		}
 	}
 	if o.end == "" {
@@ -371,6 +382,7 @@ func runSession(t *tlog, o sessionOpts, rng *rand.Rand) (stats map[string]int, e
 	}
 	// let background handlers that are still running log their exit
 	time.Sleep(3 * time.Millisecond)
+	stats["blocked"] = int(atomic.LoadInt32(&nblocked))
 	holdInt.Lock()
 	holdInt.on = false
 	holdInt.Unlock()
@@ -407,6 +419,9 @@ func RunPhases(args []string) int {
 			tot[k] += v
 		}
 		tot["sessions"]++
+		if tot["nodisc"] >= 2 {
+			break // enough evidence: every further session of this kind costs the full waiting time
+		}
 	}
 	t.add(event{Ev: "reset"})
 	tot["events"] = t.n
